@@ -284,6 +284,26 @@ CLAIMED = {
         note="Error response => no effect, other response => effect; whether a relationship to a missing node is accepted is left open as "
              "long as all replicas agree. Timestamps are not compared. Replicas run one after the other, without openraft.",
         ref="DESIGN.md §4 C32"),
+    "C23": dict(
+        text="FrontEnds.tla models a front-end call as classification (read/write path) then execution on the engine's two entry points, "
+             "for statements rendered to text in TLA+ (Routing.tla structures + decorations that put write keywords inside literals and "
+             "UNION branches); TLC checks outcome/effect equality with the engine, finds the misrouted statement with the pinned tree's "
+             "substring classifiers (self-test), and every statement of the exhaustive product (1 936 quick / 11 502 thorough) is run on "
+             "the engine, through CommandHandler (GRAPH.QUERY) and through the axum router (POST /api/query) on identical graphs; TLC "
+             "validates outcome class, columns, rows and the full dump (incl. SHOW INDEXES / CONSTRAINTS) per route, and that a "
+             "read-routed statement leaves the dump unchanged.",
+        note="<=2 leading read clauses, one write/DDL clause, upper/lower case, 3 separators, 3 keyword decorations; fixed 3-node graph; "
+             "error messages and PROFILE timings not compared.",
+        ref="DESIGN.md §4 C23"),
+    "C19": dict(
+        text="Server.tla models served graph and data directory id-keyed, one action per write kind x front end, Restart = main.rs "
+             "recovery; TLC checks Durable / Restart => served' = served on the design, emits one script per (state, last write) + Restart, "
+             "two-restart scripts and random walks; each runs on a CommandHandler + HTTP router wired to a real PersistenceManager exactly "
+             "as main.rs wires them, restart = drop everything and boot again on the same directory; the dump after every step is "
+             "validated by TLC. The two open findings are narrow deviation actions (which writes are lost is stated exactly).",
+        note="<=3 keys, 2 labels, 1 property, 1 relationship type; clean restart by library calls (real binary not started, crash points not "
+             "explored); ids expected to survive recovery; open findings: RESP persists only returned entities, HTTP persists nothing.",
+        ref="DESIGN.md §4 C19"),
 }
 
 NOT_YET = "check not built yet in this round (planned in DESIGN.md §4); not claimed until its check is green on the unchanged tree"
